@@ -217,7 +217,9 @@ func (s *semapCtx) emptyWaitersAt(t *Trace, base *Sym, i int) bool {
 		}
 		if b, ok := s.listCallOn(e, "Front"); ok && b.Key() == base.Key() {
 			r := e.Res
-			if hasFact(facts, func(f Fact) bool { return f.X.Key() == r.Key() && f.Op == token.EQL && f.Y.isNilConst() }) {
+			if hasFact(facts, func(f Fact) bool {
+				return (f.X.Key() == r.Key() || s.isFrontPhi(f.X)) && f.Op == token.EQL && f.Y.isNilConst() && f.Idx > j
+			}) {
 				return true
 			}
 		}
@@ -259,6 +261,12 @@ func (s *semapCtx) fitsFact(t *Trace, facts []Fact, base, cur, n *Sym) bool {
 		if f.Op == token.GEQ && f.X.Kind == KBin && f.X.Op == token.SUB && isSize(f.X.Args[0]) && f.X.Args[1].Key() == n.Key() && f.Y.Key() == cur.Key() {
 			return true
 		}
+		// the same two, written the other way round: n <= size - cur ; cur <= size - n
+		if f.Op == token.LEQ && f.Y.Kind == KBin && f.Y.Op == token.SUB && isSize(f.Y.Args[0]) {
+			if (f.Y.Args[1].Key() == cur.Key() && f.X.Key() == n.Key()) || (f.Y.Args[1].Key() == n.Key() && f.X.Key() == cur.Key()) {
+				return true
+			}
+		}
 		return false
 	})
 }
@@ -281,13 +289,17 @@ func (s *semapCtx) frontWaiter(t *Trace, base, n *Sym, i int) (elem, w *Sym, ok 
 	for j := i - 1; j >= 0; j-- {
 		e := t.Events[j]
 		if isListMutation(e) {
+			// the removal of this very element may precede the accounting (the three steps of a grant are independent)
+			if b, isr := s.listCallOn(e, "Remove"); isr && b.Key() == base.Key() && len(e.Args) > 1 && e.Args[1].Key() == elem.Key() {
+				continue
+			}
 			return nil, nil, false
 		}
 		if acq, _, isl := lockOp(e); isl && acq {
 			return nil, nil, false
 		}
 		if b, isf := s.listCallOn(e, "Front"); isf && b.Key() == base.Key() {
-			if e.Res.Key() == elem.Key() {
+			if e.Res.Key() == elem.Key() || s.isFrontPhi(elem) {
 				return elem, w, true
 			}
 			return nil, nil, false
@@ -373,6 +385,16 @@ func (s *semapCtx) checkGrants(t *Trace, name string) {
 			}
 			// triple: Remove(elem) and close(w.ready) follow before the next Front()/return
 			rm, cl := false, false
+			// the removal may also have happened between the Front() call and this store
+			for j := i - 1; j >= 0; j-- {
+				x := t.Events[j]
+				if b, isr := s.listCallOn(x, "Remove"); isr && b.Key() == base.Key() && len(x.Args) > 1 && x.Args[1].Key() == elem.Key() {
+					rm = true
+				}
+				if _, isf := s.listCallOn(x, "Front"); isf {
+					break
+				}
+			}
 			for j := i + 1; j < len(t.Events); j++ {
 				x := t.Events[j]
 				if b, isr := s.listCallOn(x, "Remove"); isr && b.Key() == base.Key() && len(x.Args) > 1 && x.Args[1].Key() == elem.Key() {
@@ -827,3 +849,26 @@ func (s *semapCtx) checkWeights() {
 }
 
 var _ = types.Typ
+
+// isFrontPhi: sym is a loop-carried variable all of whose incoming values are results of waiters.Front() — in
+// `for head := l.Front(); head != nil; head = l.Front()` the variable is the latest Front() at every test.
+func (s *semapCtx) isFrontPhi(x *Sym) bool {
+	if x == nil || x.Kind != KFresh || x.Name != "loop" {
+		return false
+	}
+	phi, ok := x.Ref.(*ssa.Phi)
+	if !ok || len(phi.Edges) == 0 {
+		return false
+	}
+	for _, ed := range phi.Edges {
+		call, isCall := ed.(*ssa.Call)
+		if !isCall || call.Call.StaticCallee() == nil || call.Call.StaticCallee().String() != "(*container/list.List).Front" {
+			return false
+		}
+		fa, isFA := call.Call.Args[0].(*ssa.FieldAddr)
+		if !isFA || !sameField(fieldVar(fa.X.Type(), fa.Field), s.waiters) {
+			return false
+		}
+	}
+	return true
+}
